@@ -1,6 +1,8 @@
 (* C13 property theorems: call-graph attributes agree with the tree (verified checker). *)
 From HTA.lib Require Import Base.
 From HTA.proof Require Import C13_Proofs.
+From HTA.model Require Import C13_Model.
+From HTA.proof Require Import Scale C13_Scale.
 Open Scope Z_scope.
 
 (* a table accepted by the checker reports, for every host row, the count, summed duration, earliest start, latest end
@@ -30,3 +32,9 @@ Definition t13 : list node :=
     mkNode 3 1 true 10 3 2 0 1 3 10 13 3; mkNode 4 2 false 6 1 2 1 1 4 20 24 4; mkNode 5 4 true 20 4 3 0 1 4 20 24 4 ].
 Example C13_nonvacuous : check_table t13 = true /\ map n_id (klist t13 3 (mkNode 0 (-1) false 0 30 0 3 2 7 10 24 14)) = [3; 5].
 Proof. vm_compute. split; reflexivity. Qed.
+
+(* resolution independence of the tree: times multiplied by k > 0 leave the parent relation (host trees, backward attachment, device
+   children) unchanged, hence depth and height, which are functions of that relation alone *)
+Theorem C13_tree_resolution_independent : forall k l, 0 < k -> parent_map (scale_evs k l) = parent_map l.
+Proof. exact C13_parent_map_scale. Qed.
+Print Assumptions C13_tree_resolution_independent.
